@@ -12,6 +12,18 @@ import numpy as np
 from .. import par
 from ..qlib import lib, q_from_float, q_to_float, omul, ofro, units
 
+_FLAGN = [0]
+
+
+def _flag(v):
+    """the output-mode flag the way callers hold it: the literal, a numpy bool (the result of a comparison), 0 / 1, None for False"""
+    _FLAGN[0] += 1
+    k = _FLAGN[0] % 4
+    if v:
+        return (True, np.bool_(True), 1, np.int64(1))[k]
+    return (False, np.bool_(False), 0, None)[k]
+
+
 CFG = """CONSTANTS MaxM = %d
  Variants = {%s}
  Modes = {2, 3}
@@ -65,9 +77,9 @@ def _replay_state(st):
     A_before = A.copy()
     try:
         if mode == 3:
-            Lq, Uq, Pq = L.quaternion_lu(Aq, return_p=True)
+            Lq, Uq, Pq = L.quaternion_lu(Aq, return_p=_flag(True))
         else:
-            Lq, Uq = L.quaternion_lu(Aq)
+            Lq, Uq = L.quaternion_lu(Aq) if _FLAGN[0] % 4 == 0 else L.quaternion_lu(Aq, return_p=_flag(False))
             Pq = None
         raised = False
     except Exception as e:  # noqa
@@ -200,12 +212,12 @@ def _b_case(args):
     ev = {"tid": tid, "m": m, "n": n, "N": N, "kind": kind}
     r3 = r2 = None
     try:
-        r3 = L.quaternion_lu(Aq.copy(), return_p=True)
+        r3 = L.quaternion_lu(Aq.copy(), return_p=_flag(True))
         ev["raised3"] = False
     except Exception:
         ev["raised3"] = True
     try:
-        r2 = L.quaternion_lu(Aq.copy())
+        r2 = L.quaternion_lu(Aq.copy(), return_p=_flag(False))
         ev["raised2"] = False
     except Exception:
         ev["raised2"] = True
